@@ -281,4 +281,6 @@ def run(chk, tier):
         chk.expect(names == ["preamble", "DICM", "meta", "dataset"], "preamble", fn, "write-order", ["preamble", "DICM", "meta", "dataset"], names, loc=C.fn_loc(h))
     chk.note("open_file (path) also skips 128 bytes when nothing is detected (Auto), from_reader does not: outside the property's statement "
              "(it speaks of files written with or without the preamble), recorded here, not a violation")
+    from . import shared
+    shared.meta_order_ascending(chk, fx, "meta-order-ascending")
     chk.undecided.append("equality of the re-read table with the written one on concrete values")
